@@ -339,7 +339,8 @@ func Random(r *mon.Rand, o *Opts) *Spec {
 			s.Path, s.PathKind = o.WatchDir, "dir"
 		}
 		if r.Chance(1, 6) {
-			s.Path, s.PathKind = "/nonexistent/"+randSafe(r, r.Range(1, 20)), "path"
+			// the component must stay below /nonexistent after cleaning: no '/', no "." / ".." (that would name "/", a directory)
+			s.Path, s.PathKind = "/nonexistent/n"+strings.NewReplacer("/", "_", ".", "_").Replace(randSafe(r, r.Range(1, 20))), "path"
 		}
 		if r.Chance(4, 5) {
 			letters := []byte("rwxa")
